@@ -166,6 +166,8 @@ type LoopCtx struct {
 
 type State struct {
 	pc       []T
+	promo    map[*Cell]bool // local variables living in the heap in this state
+	litCache map[*SliceLit]T
 	cells    map[*Cell]Value
 	heaps    map[string]T
 	epoch    int
@@ -232,6 +234,14 @@ func (s *State) clone() *State {
 		n.tokens[k] = v
 	}
 	n.notes = append([]string(nil), s.notes...)
+	n.promo = make(map[*Cell]bool, len(s.promo))
+	for k, v := range s.promo {
+		n.promo[k] = v
+	}
+	n.litCache = make(map[*SliceLit]T, len(s.litCache))
+	for k, v := range s.litCache {
+		n.litCache[k] = v
+	}
 	n.lastFrame = s.lastFrame
 	n.stopAt = append([]stopPoint(nil), s.stopAt...)
 	n.marks = make(map[string]*Snapshot, len(s.marks))
@@ -384,10 +394,20 @@ func (u *Unit) assumeTypeInv(s *State, v T, t types.Type) {
 // newObject allocates a fresh object reference (non-nil, previously unallocated).
 func (u *Unit) newRef(s *State, prefix string) T {
 	r := u.fresh(prefix, SInt)
+	u.allocRef(s, r)
+	return r
+}
+
+// allocRef: r names an object that is allocated now (it was not before).
+func (u *Unit) allocRef(s *State, r T) T {
 	al := u.heapGet(s.view(), "alloc", ArrSort(SInt, SBool))
 	s.assumeDef(Not(Select(al, r)))
 	s.assumeDef(Lt(IntLit(0), r))
 	u.heapSet(s, "alloc", Store(al, r, True))
+	if len(u.eng.addrTaken) > 0 {
+		u.declFtag()
+		s.assumeDef(Eq(ftagOf(r), IntLit(0)))
+	}
 	return r
 }
 
